@@ -39,6 +39,8 @@ pub enum DropPoint {
     AfterAllIo,
     AfterError,
     AfterFinish,
+    /// finish() whose final sink write / flush fails
+    AfterFailedFinish,
 }
 
 pub const WORKER_REQUESTS: [u32; 9] = [0, 1, 2, 3, 16, 256, 257, 1000, u32::MAX];
@@ -68,6 +70,7 @@ pub fn run_case(ctx: &Ctx, idx: u64) -> Vec<CaseOut> {
             DropPoint::AfterAllIo,
             DropPoint::AfterError,
             DropPoint::AfterFinish,
+            DropPoint::AfterFailedFinish,
         ])
     };
     let requested = if idx < STEER { 2 } else { *r.pick(&WORKER_REQUESTS) };
@@ -177,21 +180,33 @@ pub fn run_case(ctx: &Ctx, idx: u64) -> Vec<CaseOut> {
                             let _ = w.flush();
                             drop(w)
                         }
-                        DropPoint::AfterFinish => {
+                        DropPoint::AfterFinish | DropPoint::AfterFailedFinish => {
                             let _ = w.write_all(&d2);
                             let _ = w.finish();
                         }
                     }
                 }};
             }
+            // the sink fails only for AfterFailedFinish: either its flush, or every write from the
+            // last data unit on (so that the end marker / last member cannot be written)
+            let plan = if point == DropPoint::AfterFailedFinish {
+                if io_amount % 2 == 0 {
+                    crate::fio::WritePlan { flush_err_at: Some((0, std::io::ErrorKind::TimedOut)), ..Default::default() }
+                } else {
+                    crate::fio::WritePlan { err_at_call: Some((units.saturating_sub(1), std::io::ErrorKind::TimedOut)), ..Default::default() }
+                }
+            } else {
+                crate::fio::WritePlan::default()
+            };
+            let sink = crate::fio::FaultyWrite::new(plan);
             if lzip {
                 let o = LZIPOptions { lzma_options: fast_opts(4096), member_size: NonZeroU64::new(unit as u64) };
-                if let Ok(w) = LZIPWriterMT::new(Vec::new(), o, requested) {
+                if let Ok(w) = LZIPWriterMT::new(sink, o, requested) {
                     drive_writer!(w)
                 }
             } else {
                 let o = LZMA2Options { lzma_options: fast_opts(4096), chunk_size: NonZeroU64::new(unit as u64) };
-                if let Ok(w) = LZMA2WriterMT::new(Vec::new(), o, requested) {
+                if let Ok(w) = LZMA2WriterMT::new(sink, o, requested) {
                     drive_writer!(w)
                 }
             }
